@@ -218,8 +218,8 @@ func naturalSort(info *types.Info, c *ast.CallExpr) bool {
 // other statement is a keyed store / local definition (I3-compatible).
 type bodyShape struct {
 	Collected []*types.Var
-	KeyedOnly bool     // every effect is `dst[K] = V` / delete / local definition / collect
-	Other     []string // statements outside the accepted shapes
+	KeyedOnly bool            // every effect is `dst[K] = V` / delete / local definition / collect
+	Other     []string        // statements outside the accepted shapes
 	Calls     []*ast.CallExpr // every call evaluated by the body (right-hand sides, definitions, conditions included)
 }
 
